@@ -26,18 +26,26 @@ class TabularFailureCases:
 
     __pyvc_symbolic__ = True
 
-    def __init__(self, member):
-        self.member = member
+    def __init__(self, member, text=None):
+        self.member, self.text = member, text
 
     def pyvc_getitem(self, I, k):
         if k == "index":
+            if self.text is not None:
+                return PL.TextLabelSeries(self.member, labels_are_literals=self.text == "literal")
             return LabelSeries(self.member)
         raise core.Unsupported(f"failure_cases[{k!r}]")
 
 
-def errors_list(name):
-    """list of collected SchemaErrors; error j reports the label set  { l : fails(j, l) }"""
-    fails = z3.Function(cur().fresh_name("fails"), z3.IntSort(), L, z3.BoolSort())
+def errors_list(name, text=None):
+    """list of collected SchemaErrors; error j reports the label set  { l : fails(j, l) }
+    text (MultiIndex): the report holds the TEXT of each label tuple: error j reports { t : reports_text(j, t) } and a row is
+    reported when the text of its label is in that set"""
+    if text is not None:
+        rt = z3.Function(cur().fresh_name("reports_text"), z3.IntSort(), PL.LabelText, z3.BoolSort())
+        fails = lambda j, l: rt(j, PL.label_text(l))  # noqa: E731
+    else:
+        fails = z3.Function(cur().fresh_name("fails"), z3.IntSort(), L, z3.BoolSort())
     cur().ghost["fails"] = fails
     n = core.sym_int(f"len({name})")
     cur().assume(n >= 0)
@@ -46,7 +54,10 @@ def errors_list(name):
     def elem(i):
         iz = i.z if isinstance(i, core.SNum) else z3.IntVal(i)
         o = Obj(None, f"{name}[{iz}]", pre=True)
-        o.attrs["failure_cases"] = TabularFailureCases(lambda l, iz=iz: SBool(fails(iz, l)))
+        if text is not None:
+            o.attrs["failure_cases"] = TabularFailureCases(lambda t, iz=iz: SBool(rt(iz, t)), text=text)
+        else:
+            o.attrs["failure_cases"] = TabularFailureCases(lambda l, iz=iz: SBool(fails(iz, l)))
         o.attrs0["failure_cases"] = o.attrs["failure_cases"]
         return o
 
@@ -67,6 +78,7 @@ def closed_form(view0, k):
 class PandasDropInvalidRows(Contract):
     target = f"{BASE}.drop_invalid_rows"
     params = dict(self=T.Ref(None), check_obj=None, error_handler=None)
+    labels = None  # flat index: the report holds the labels themselves
 
     def setup(self, I):
         PL.install(I)
@@ -76,8 +88,9 @@ class PandasDropInvalidRows(Contract):
 
         k = cur().choose([("DataFrame", None), ("Series", None)], "kind(check_obj)")
         obj = FrameVal.fresh("check_obj") if k == 0 else SeriesVal.fresh("check_obj", "real")
+        obj.space.multi = self.labels is not None
         eh = Obj(ErrorHandler, "error_handler", pre=True)
-        errs = errors_list("schema_errors")
+        errs = errors_list("schema_errors", text=self.labels)
         eh.attrs["_schema_errors"] = errs
         eh.attrs0["_schema_errors"] = errs
         cur().ghost["view0"] = obj
@@ -126,7 +139,49 @@ class PandasDropInvalidRows(Contract):
         return out
 
 
-CONTRACTS = [PandasDropInvalidRows]
+class PandasDropInvalidRowsMultiIndex(PandasDropInvalidRows):
+    """the same function on an object with a MultiIndex: the report (reshape_failure_cases) holds the TEXT of each failing row's label
+    tuple, `str((level values...))`.  A row is dropped  <=>  the text of its label is reported by some collected error - for EVERY
+    kind of level value: whether or not that text happens to be a Python expression that evaluates back to the tuple (ints and strings
+    do; Timestamp('...'), nan, Decimal('1') ... do not), and no library error escapes."""
+
+    split = {"labels": ["literal", "not_literal"]}
+    raises = ()
+
+    @property
+    def labels(self):
+        return self.fixed.get("labels", "literal")
+
+    def concretize(self, rec):
+        def thunk():
+            import warnings
+
+            import pandas as pd
+            import pandera as pa
+
+            warnings.simplefilter("ignore")
+            obs, bad = {}, False
+            schema = pa.DataFrameSchema({"a": pa.Column(int, pa.Check.gt(0))}, drop_invalid_rows=True)
+            cases = {
+                "(str, int) levels": [("x", 1), ("y", 2), ("z", 3)],
+                "(Timestamp, int) levels": [(pd.Timestamp("2020-01-01"), 1), (pd.Timestamp("2020-01-02"), 2), (pd.Timestamp("2020-01-03"), 3)],
+                "(float with NaN, int) levels": [(1.5, 1), (float("nan"), 2), (2.5, 3)],
+            }
+            for name, tuples in cases.items():
+                df = pd.DataFrame({"a": [1, -1, 3]}, index=pd.MultiIndex.from_tuples(tuples, names=["d", "k"]))
+                try:
+                    got = schema.validate(df, lazy=True)["a"].tolist()
+                except Exception as e:  # noqa: BLE001
+                    got = f"raised {type(e).__name__}: {e}"
+                if got != [1, 3]:
+                    bad = True
+                    obs[f"a=[1,-1,3] under {name}, Check.gt(0), drop_invalid_rows"] = f"{got}, expected [1, 3]"
+            return bad, obs or "rows are dropped by the text of their MultiIndex label for every kind of level value"
+
+        return thunk
+
+
+CONTRACTS = [PandasDropInvalidRows, PandasDropInvalidRowsMultiIndex]
 
 
 def _pandas_standin(seed=0, tier="quick"):
